@@ -54,13 +54,7 @@ def isCompleteMessage (hl : Nat) (data : Bytes) (t : Nat) : Outcome Bool :=
 
 /-- the guard at the top of an unmarshal: `if !dtlcpIsCompleteMessage(data, t) { return false }` -/
 def guard {α : Type} (c : Codes) (t : Nat) (data : Bytes) (k : Outcome α) : Outcome α :=
-  if c.complete.contains t then
-    match isCompleteMessage c.hl data t with
-    | .ok true => k
-    | .ok false => .reject
-    | .reject => .reject
-    | .panic => .panic
-  else k
+  guardWith (c.complete.contains t) (isCompleteMessage c.hl data t) k
 
 /-- `m.messageSeq = uint16(data[4])<<8 | uint16(data[5])` … of the hand-indexed unmarshals -/
 def hdrFields (data : Bytes) : Outcome DHdr := do
